@@ -296,6 +296,24 @@ def calcTaprootSignatureHashRawNil (H : Bytes → Bytes) (hType : UInt32) (tx : 
     if (hType &&& 0x80) ≠ 0x80 ∨ ((hType &&& 3) ≠ 3 ∧ (hType &&& 3) ≠ 2) then .panic
     else calcTaprootSignatureHashRaw H SigHashes.zero hType tx idx fetch opts
 
+/-! ### sigvalidate.go: which midstate the interpreter's verifiers use -/
+
+/-- `baseSegwitSigVerifier.Verify` and (since the fix of F-C07-a) `newTaprootSigVerifier`: the
+midstate supplied to `NewEngine` if there is one, `NewTxSigHashes(tx, prevOuts)` otherwise. -/
+def engineMidstate (H : Bytes → Bytes) (supplied : Option SigHashes) (tx : Tx)
+    (fetch : OutPoint → TxOut) : SigHashes :=
+  match supplied with
+  | some s => s
+  | none => newTxSigHashes H tx fetch
+
+def engineWitnessDigest (H : Bytes → Bytes) (supplied : Option SigHashes) (sub : Bytes)
+    (hashType : UInt32) (tx : Tx) (idx : Nat) (amt : UInt64) (fetch : OutPoint → TxOut) : Out :=
+  calcWitnessSignatureHashRaw H sub (engineMidstate H supplied tx fetch) hashType tx idx amt
+
+def engineTaprootDigest (H : Bytes → Bytes) (supplied : Option SigHashes) (hType : UInt32) (tx : Tx)
+    (idx : Nat) (fetch : OutPoint → TxOut) (opts : TaprootSigHashOptions) : Out :=
+  calcTaprootSignatureHashRaw H (engineMidstate H supplied tx fetch) hType tx idx fetch opts
+
 /-! ### sigcache.go -/
 
 structure SigCacheEntry where
